@@ -23,10 +23,14 @@ def make(prop, quick, thorough, explanation, functions, outside, extra_bounds=No
 
     def jobs(ctx):
         js = []
-        for sc in scenarios(ctx).values():
+        for i, sc in enumerate(scenarios(ctx).values()):
+            # the witness twin (non-vacuity: all threads can finish) costs as much as the query itself: in the quick tier only
+            # the first two scenarios of a property carry one, in the thorough tier all do
+            sc.witness = (i < 2) or ctx.tier == 'thorough'
             js += e3.make_jobs(ctx, sc)
-        first = list(scenarios(ctx).values())[0]
-        js.append(e3.smoke_job(ctx, first))
+        multi = [sc for n, sc in scenarios(ctx).items() if not n.startswith(('e2_', 'af_', 'ns_'))]   # random schedules make sense for real interleaving scenarios only
+        if multi:
+            js.append(e3.smoke_job(ctx, multi[0]))
         return js
 
     def confirm(ctx, job, failure):
